@@ -3,8 +3,11 @@
 (* Model / Sector API on top of it), recorded by harness/checks/c10.py, are judged    *)
 (* against the SUPPLIED data carried by the events, re-using ParseOp / SolveOp.       *)
 (* One total verdict per trace id.                                                    *)
-(*   Parse event:  cfg (block, exogenous spec and values, ICs, horizon, where, late,  *)
-(*                 reduce), api, dress ("int": the supplied values are the small      *)
+(* A trace is a history on one solver object: Parse [Solve] [Parse [Solve]]; the spec  *)
+(* state carries the solver attribute (smax) from one round into the next.             *)
+(*   Parse event:  fresh (new solver object, or the one of the previous round), cfg    *)
+(*                 (block, exogenous spec and values, ICs, horizon, where, late, bmax, *)
+(*                 reduce, solve), api, dress ("int": the supplied values are the small      *)
 (*                 integers of cfg; "float": seeded random floats of the same shape,  *)
 (*                 compared in Python), ok/exc, observed classification and MaxTime   *)
 (*   Solve event:  ok/exc, ts_empty, taxis, obs = per variable [name, len, icv, exov, *)
@@ -19,18 +22,19 @@ EXTENDS Horizon, Json, IOUtils
 
 Log == ndJsonDeserialize(IOEnv.TRACE_FILE)
 
-VARIABLES l, verdict
-tvars == << hvars, l, verdict >>
+VARIABLES l, verdict, rnd
+tvars == << hvars, l, verdict, rnd >>
 
-Ok == [kind |-> "ok", clause |-> ""]
-P(c) == [kind |-> "property", clause |-> c]
-D(c) == [kind |-> "drift", clause |-> c]
+(* rnd = number of Parse events of the trace so far; a verdict names the round it was given in *)
+Ok == [kind |-> "ok", clause |-> "", rnd |-> 0]
+P(c) == [kind |-> "property", clause |-> c, rnd |-> rnd']
+D(c) == [kind |-> "drift", clause |-> c, rnd |-> rnd']
 Rank(v) == CASE v.kind = "ok" -> 0 [] v.kind = "drift" -> 1 [] v.kind = "property" -> 2
 Worse(a, b) == IF Rank(b) > Rank(a) THEN b ELSE a     \* keeps the first of equal rank
 
 NoCfg == [bp |-> "", vars |-> << >>, exo |-> [form |-> "list", vals |-> << >>, v |-> 0],
           ics |-> << >>, icform |-> "float", horizon |-> 0, where |-> "default", reduce |-> TRUE,
-          late |-> 0, bmax |-> 0]
+          late |-> 0, bmax |-> 0, solve |-> TRUE]
 
 ----------------------------------------------------------------------------
 (* Parse: conformance only *)
@@ -107,23 +111,25 @@ JudgeSolve(e, c, s) ==
 ----------------------------------------------------------------------------
 TraceInit == /\ cfg = NoCfg /\ phase = S0.phase /\ vlist = S0.vars /\ deco = S0.deco
              /\ horizon = S0.horizon /\ series = S0.series /\ tz = S0.tz /\ step = S0.step
-             /\ err = S0.err /\ smax = S0.smax /\ l = 1 /\ verdict = Ok
+             /\ err = S0.err /\ smax = S0.smax /\ plan = << >> /\ idx = 0 /\ l = 1 /\ verdict = Ok
+             /\ rnd = 0
 
 TraceNext ==
     /\ l <= Len(Log)
     /\ l' = l + 1
+    /\ UNCHANGED << plan, idx >>
     /\ LET e == Log[l] IN
-       \/ /\ e.ev = "Parse"
-          /\ cfg' = e.cfg
-          /\ Become(ParseOp(e.cfg))
-          /\ verdict' = Worse(verdict, JudgeParse(e, ParseOp(e.cfg)))
+       \/ /\ e.ev = "Parse"          \* e.fresh: a new solver object; else the one of the previous round
+          /\ cfg' = e.cfg /\ rnd' = rnd + 1
+          /\ LET s == ParseOp(e.cfg, IF e.fresh THEN -1 ELSE smax)
+             IN Become(s) /\ verdict' = Worse(verdict, JudgeParse(e, s))
        \/ /\ e.ev = "Solve"
-          /\ UNCHANGED cfg
+          /\ UNCHANGED << cfg, rnd >>
           /\ Become(SolveOp(S, cfg))
           /\ verdict' = Worse(verdict, JudgeSolve(e, cfg, S))
        \/ /\ e.ev = "End"
-          /\ PrintT(<< "VERDICT", e.tid, verdict.kind \o ":" \o verdict.clause >>)
-          /\ cfg' = NoCfg /\ Become(S0)
+          /\ PrintT(<< "VERDICT", e.tid, verdict.kind \o ":" \o verdict.clause \o ":" \o ToString(verdict.rnd) >>)
+          /\ cfg' = NoCfg /\ Become(S0) /\ rnd' = 0
           /\ verdict' = Ok
 
 TraceSpec == TraceInit /\ [][TraceNext]_tvars
